@@ -54,7 +54,7 @@ def gen_cases(tier, seed):
     return cases, {"grid_points": len(pts), "random_pairs": nr, "total": len(cases)}
 
 
-def judge(case, impl, model):
+def judge(case, impl, model, spec=None):
     t = case.split()
     if impl.startswith("CRASH") or impl.startswith("HANG") or impl == "MISSING":
         return ("crash:" + impl.split()[-1], "the library crashed or hung on " + case)
